@@ -99,14 +99,19 @@ def _spellings(i):
         # pointwise (NumPy-style) assignment: put(..., broadcast=True).  (The 'indexing.broadcast' option is dead in the
         # pinned code - the class attribute _broadcast=False shadows it - so there is no option spelling.)
         return ["putb", "putb_dict"] if mode == "label" else ["putb_position"]
+    nonall = [k for k, ix in enumerate(i["idxs"]) if ix["k"] != "all"]
     if mode == "label":
         sp = ["put", "put_dict"]
         if ip and not cast:
             sp += ["setitem", "loc="]
+        if len(nonall) == 1:
+            sp += ["put_negaxis", "put_dict_negpos"]        # the dimension given by its negative position (axis=, dict key)
     else:
         sp = ["put_position"]
         if ip and not cast:
             sp += ["ix=", "iloc="]
+        if len(nonall) == 1:
+            sp += ["put_negaxis"]
     return sp
 
 
@@ -138,6 +143,11 @@ def _do(a, sp, i, tup, rhs):
         return a.put(d, rhs, **kw)
     if sp == "put_position":
         return a.put(tup, rhs, indexing="position", **kw)
+    if sp in ("put_negaxis", "put_dict_negpos"):
+        k = [q for q, ix in enumerate(i["idxs"]) if ix["k"] != "all"][0]
+        if sp == "put_negaxis":
+            return a.put(tup[k], rhs, axis=k - a.ndim, indexing=i["mode"], **kw)
+        return a.put({k - a.ndim: tup[k]}, rhs, **kw)
     t = tup if len(tup) != 1 else tup[0]
     if sp == "setitem":
         a[t] = rhs
